@@ -1,1 +1,76 @@
-// harnesses for this module (included by the isomer_erbium_verif hook)
+// Kani harnesses for crates/erbium-core/src/http.rs (C20: the lease listing is valid JSON whatever bytes a client puts in
+// its host name).  The listing is produced by format! inside the async serve_leases; the per-lease host-name fragment
+// is rendered by the closure `.map(|h| format!(...))`, whose text is lifted verbatim by lib/lift.py.
+#[cfg(kani)]
+mod k {
+    #[allow(unused_imports)]
+    use super::super::*;
+
+    include!(concat!(env!("VERIF_GEN_DIR"), "/hostname_fragment.rs"));
+
+    // RFC 8259 section 7: after `, "host-name": ` comes a string: '"' (unescaped-char | escape)* '"' where an unescaped char
+    // is any code point except '"', '\\' and controls < 0x20, and an escape is \" \\ \/ \b \f \n \r \t or \uXXXX.
+    fn json_string_ok(b: &[u8]) -> bool {
+        let n = b.len();
+        if n < 2 || b[0] != b'"' || b[n - 1] != b'"' {
+            return false;
+        }
+        let mut i = 1;
+        while i < n - 1 {
+            let c = b[i];
+            if c == b'"' || c < 0x20 {
+                return false;
+            }
+            if c == b'\\' {
+                if i + 1 >= n - 1 {
+                    return false;
+                }
+                let e = b[i + 1];
+                if e == b'u' {
+                    if i + 5 >= n - 1 + 0 && i + 5 > n - 2 {
+                        return false;
+                    }
+                    let mut k = 0;
+                    while k < 4 {
+                        if !b[i + 2 + k].is_ascii_hexdigit() {
+                            return false;
+                        }
+                        k += 1;
+                    }
+                    i += 6;
+                    continue;
+                }
+                if !(e == b'"' || e == b'\\' || e == b'/' || e == b'b' || e == b'f' || e == b'n' || e == b'r' || e == b't') {
+                    return false;
+                }
+                i += 2;
+                continue;
+            }
+            i += 1;
+        }
+        true
+    }
+
+    const PREFIX: &[u8] = b", \"host-name\": ";
+
+    /// VERIF: {"p":"C20","tier":"experimental","fns":["http::serve_leases (host-name fragment closure lifted from source)"],"bounds":"host names of exactly one ASCII character (all 128 values)","oracle":"the fragment is `, \"host-name\": ` followed by a JSON string (RFC 8259 section 7: no raw control characters, only the JSON escapes)","stubs":["closure body lifted verbatim from serve_leases"],"covers":2,"unwind":16}
+    #[kani::proof]
+    #[kani::unwind(16)]
+    fn c20_hostname_fragment_is_json_one_ascii_char() {
+        let c: u8 = kani::any();
+        kani::assume(c < 0x80);
+        let h = String::from(c as char);
+        let out = lifted_hostname_fragment(h);
+        let b = out.as_bytes();
+        kani::cover!(c == b'a', "plain letter");
+        kani::cover!(c == 0x7f, "DEL");
+        assert!(b.len() >= PREFIX.len() + 2, "fragment has the key and a string");
+        let mut i = 0;
+        while i < PREFIX.len() {
+            assert!(b[i] == PREFIX[i], "fragment starts with the host-name key");
+            i += 1;
+        }
+        assert!(json_string_ok(&b[PREFIX.len()..]), "host name is rendered as a JSON string");
+        std::mem::forget(out);
+    }
+}
